@@ -574,7 +574,41 @@ def api_worker(arg):
             jobs.append((nid, kind, c2["arch"], c2, ffs))
             lines.append(driver_line(c2, kind, ffs))
             nid += 1
+    # every pool label as branch target and as memory base, under every emitter kind
+    first_form = {}
+    for f in forms:
+        first_form.setdefault(f["name"], f["_idx"])
+    for arch in ("x64", "x86"):
+        areg = "gp64" if arch == "x64" else "gp32"
+        for lkind, lk, _, _ in LABELS:
+            key = "%s%d" % (lkind, lk)
+            mem = dict(size=4, base=("label", key), index=None, shift=0, disp=8, seg=0, bcst=0, addr="default")
+            tmpl = [("jmp", [("L", key)]), ("call", [("L", key)]), ("jz", [("L", key)]),
+                    ("lea", [("R", areg, 3), ("M", dict(mem, size=0))]), ("mov", [("R", "gp32", 1), ("M", dict(mem, disp=-16))])]
+            for name, ops in tmpl:
+                for kind in ("fc", "fb", "fa", "fn"):
+                    if kind in ("fc", "fb") and arch != "x64":
+                        continue
+                    c2 = dict(id=nid, arch=arch, form=first_form.get(name, 0), name=name, opts=0, extra=None, ops=ops, variant="label")
+                    ffs = flag_sets_for(rng, tier)
+                    jobs.append((nid, kind, arch, c2, ffs))
+                    lines.append(driver_line(c2, kind, ffs))
+                    nid += 1
     recs64 = isadb.a64_forms()
+    first_rec = {}
+    for r64 in recs64:
+        first_rec.setdefault(r64["name"], r64["_idx"])
+    for lkind, lk, _, _ in LABELS:
+        key = "%s%d" % (lkind, lk)
+        for l2 in ("b 1 L:%s" % key, "bl 1 L:%s" % key, "adr 2 G:x:3 L:%s" % key, "cbz 2 G:w:5 L:%s" % key, "b.2 1 L:%s" % key,
+                   "ldr 2 G:x:7 ML:16:%s" % key, "ldr 2 G:w:v2 ML:0:%s" % key):
+            for kind in ("fc", "fb", "fa", "fn"):
+                if ":v" in l2 and kind not in ("fc", "fb"):
+                    continue
+                ffs = flag_sets_for(rng, tier)
+                jobs.append((nid, kind, "a64", {"line": l2, "rec": first_rec.get(l2.split()[0].split(".")[0], 0)}, ffs))
+                lines.append("%d %s %s a64 %s" % (nid, kind, ",".join("%x" % f for f in ffs), l2))
+                nid += 1
     acases, _ = a64gen.generate(recs64, seed, "quick", None, nrandom=1)
     acases = [c for c in acases if c["status"] == "ok"]
     rng.shuffle(acases)
@@ -707,7 +741,7 @@ def run(tier, args):
     if tier == "quick":
         budget, deep, nshards = max(2, int(12 * scale)), False, 16
     else:
-        budget, deep, nshards = max(2, int(24 * scale)), True, 64
+        budget, deep, nshards = max(2, int(12 * scale)), True, 64
     if rp is None or rp.get("part") == "x86":
         if rp:
             jobs.append((_x86_entry, (rp["shard"], rp["nshards"], chk.seed, rp["budget"], rp["deep"], exe, tier, set(rp["ids"]))))
@@ -723,7 +757,7 @@ def run(tier, args):
                 known.add(p[0])
         if len(known) < 100:
             raise common.HarnessError("driver lists only %d AArch64 instruction names" % len(known))
-        nrandom = max(1, int((8 if tier == "quick" else 40) * scale))
+        nrandom = max(1, int((8 if tier == "quick" else 20) * scale))
         acases, gstats = a64gen.generate(recs, chk.seed, "quick", known, nrandom=nrandom)
         idx = list(enumerate(acases))
         if scale < 1.0:
